@@ -10,24 +10,34 @@ Open Scope Z_scope.
 Lemma unit_pos L : limiter_ok L -> 0 < unit L.
 Proof. intros (Hp & Hq & Hb). unfold unit, ns_per_s. lia. Qed.
 
-(* ledger: R tokens were reserved so far; all reservations happened at or after t0 *)
-Definition linv (L : limiter) (t0 : Z) (st : lstate) (R : Z) : Prop :=
+(* ledger: R tokens were reserved so far, all at or after t0; J is the sum of the backward
+   jumps of the reservation instants (an instant earlier than the previous one re-credits the
+   interval between them: rate.go sets last = t) *)
+Definition linv (L : limiter) (t0 J : Z) (st : lstate) (R : Z) : Prop :=
   tok st <= lburst L * unit L /\
-  (R = 0 \/ (t0 <= last st /\ R * unit L + tok st <= lburst L * unit L + lp L * (last st - t0))).
+  (R = 0 \/ (t0 <= last st /\ R * unit L + tok st <= lburst L * unit L + lp L * (last st - t0) + lp L * J)).
 
-Lemma linv_init L t0 : linv L t0 (new_limiter L) 0.
+Lemma linv_init L t0 : linv L t0 0 (new_limiter L) 0.
 Proof. split; [cbn; lia|left; reflexivity]. Qed.
 
+Definition back_jump (st : lstate) (t : Z) : Z := if t <? last st then last st - t else 0.
+
+Lemma back_jump_nonneg st t : 0 <= back_jump st t.
+Proof. unfold back_jump. destruct (Z.ltb_spec t (last st)); lia. Qed.
+
 Lemma advance_le L st t :
-  limiter_ok L -> last st <= t ->
-  advance L st t <= lburst L * unit L /\ advance L st t <= tok st + lp L * (t - last st).
+  limiter_ok L ->
+  advance L st t <= lburst L * unit L /\ advance L st t <= tok st + lp L * (t + back_jump st t - last st).
 Proof.
-  intros (Hp & Hq & Hb) Hlt. unfold advance, tokens_from_duration.
-  destruct (Z.ltb_spec t (last st)) as [Hc|Hc]; [lia|].
-  destruct (Z.leb_spec (lp L) 0) as [Hz|Hz].
-  - assert (lp L = 0) as -> by lia.
-    destruct (Z.ltb_spec (lburst L * unit L) (tok st + 0)); lia.
-  - destruct (Z.ltb_spec (lburst L * unit L) (tok st + (t - last st) * lp L)); lia.
+  intros (Hp & Hq & Hb). unfold advance, tokens_from_duration, back_jump.
+  destruct (Z.ltb_spec t (last st)) as [Hc|Hc].
+  - replace (t - t) with 0 by lia. replace (t + (last st - t) - last st) with 0 by lia.
+    destruct (Z.leb_spec (lp L) 0) as [Hz|Hz];
+      [destruct (Z.ltb_spec (lburst L * unit L) (tok st + 0)); lia|destruct (Z.ltb_spec (lburst L * unit L) (tok st + 0 * lp L)); lia].
+  - destruct (Z.leb_spec (lp L) 0) as [Hz|Hz].
+    + assert (lp L = 0) as -> by lia.
+      destruct (Z.ltb_spec (lburst L * unit L) (tok st + 0)); lia.
+    + destruct (Z.ltb_spec (lburst L * unit L) (tok st + (t - last st) * lp L)); lia.
 Qed.
 
 Lemma wait_n_nonneg L st t n st' d : wait_n L st t n = (st', WSleep d) -> 0 <= d.
@@ -44,25 +54,28 @@ Proof.
     + discriminate.
 Qed.
 
-Lemma wait_n_step L t0 st R t n st' r :
-  limiter_ok L -> linf L = false -> linv L t0 st R -> last st <= t -> t0 <= t -> 0 <= n ->
+Lemma wait_n_step L t0 J st R t n st' r :
+  limiter_ok L -> linf L = false -> linv L t0 J st R -> 0 <= J -> t0 <= t -> 0 <= n ->
   wait_n L st t n = (st', r) ->
   match r with
   | WErr => st' = st
-  | WBlock => linv L t0 st' (R + n)
-  | WSleep d => linv L t0 st' (R + n) /\ (R + n) * unit L <= lburst L * unit L + lp L * (t + d - t0 + 1)
+  | WBlock => linv L t0 (J + back_jump st t) st' (R + n)
+  | WSleep d => linv L t0 (J + back_jump st t) st' (R + n) /\
+                (R + n) * unit L <= lburst L * unit L + lp L * (t + d - t0 + 1) + lp L * (J + back_jump st t)
   end.
 Proof.
-  intros Hok Hinf (Hcap & Hled) Hlast Ht0 Hn. pose proof (unit_pos L Hok) as HU.
-  destruct (advance_le L st t Hok Hlast) as [HA1 HA2]. destruct Hok as (Hp & Hq & Hb).
+  intros Hok Hinf (Hcap & Hled) HJ Ht0 Hn. pose proof (unit_pos L Hok) as HU.
+  destruct (advance_le L st t Hok) as [HA1 HA2]. destruct Hok as (Hp & Hq & Hb).
+  pose proof (back_jump_nonneg st t) as Hbj. set (bj := back_jump st t) in *.
   unfold wait_n, reserve. rewrite Hinf. cbn [negb]. rewrite andb_true_r.
   destruct (Z.ltb_spec (lburst L) n) as [Hbn|Hbn]; [intro H; inversion H; reflexivity|].
   set (tk := advance L st t - n * unit L).
   set (w := if tk <? 0 then duration_from_tokens L (- tk) else 0).
   assert (Hnu : 0 <= n * unit L) by (apply Z.mul_nonneg_nonneg; lia).
-  assert (Hinv' : linv L t0 {| tok := tk; last := t |} (R + n)).
+  assert (Hinv' : linv L t0 (J + bj) {| tok := tk; last := t |} (R + n)).
   { clear w. subst tk. split; cbn [tok last]; [lia|]. right. split; [exact Ht0|].
     assert (Hnn : 0 <= lp L * (t - t0)) by (apply Z.mul_nonneg_nonneg; lia).
+    assert (Hnj : 0 <= lp L * (J + bj)) by (apply Z.mul_nonneg_nonneg; lia).
     destruct Hled as [HR|[Ht0l Hl]]; [subst R; lia|lia]. }
   destruct ((n <=? lburst L) && (w <=? inf_duration)) eqn:Eok; cbn [negb].
   - destruct (Z.leb_spec inf_duration w) as [Hw|Hw]; intro H; inversion H; subst; [exact Hinv'|].
@@ -72,7 +85,8 @@ Proof.
       { destruct (Z.ltb_spec tk 0); [|lia]. unfold duration_from_tokens.
         destruct (Z.leb_spec (lp L) 0); [unfold inf_duration; lia|apply Z.div_pos; lia]. }
       assert (0 <= lp L * (t + (if tk <? 0 then duration_from_tokens L (- tk) else 0) - t0 + 1)) by (apply Z.mul_nonneg_nonneg; lia).
-      assert (0 <= lburst L * unit L) by (apply Z.mul_nonneg_nonneg; lia). lia.
+      assert (0 <= lburst L * unit L) by (apply Z.mul_nonneg_nonneg; lia).
+      assert (0 <= lp L * (J + bj)) by (apply Z.mul_nonneg_nonneg; lia). lia.
     + unfold w in *. destruct (Z.ltb_spec tk 0) as [Hneg|Hpos].
       * unfold duration_from_tokens in *. destruct (Z.leb_spec (lp L) 0) as [Hz|Hz]; [lia|].
         pose proof (Z.mul_succ_div_gt (- tk) (lp L) Hz) as Hdiv.
@@ -94,6 +108,11 @@ Definition res_n (id : limid) (e : ev) : Z :=
   match e with ERes id' _ n => if limid_eqb id' id then n else 0 | _ => 0 end.
 Definition res_sum (id : limid) (tr : list ev) : Z := fold_right (fun e a => res_n id e + a) 0 tr.
 
+(* total size of the backward jumps of the instants at which reservations reached limiter id *)
+Definition back_n (id : limid) (e : ev) : Z :=
+  match e with EBack id' j => if limid_eqb id' id then j else 0 | _ => 0 end.
+Definition back_sum (id : limid) (tr : list ev) : Z := fold_right (fun e a => back_n id e + a) 0 tr.
+
 Definition all_len (c : option nat) (e : ev) : Z :=
   match e with
   | EPull c' _ _ bytes => if match c with None => true | Some c0 => Nat.eqb c' c0 end then Z.of_nat (length bytes) else 0
@@ -103,6 +122,8 @@ Definition all_pulled (c : option nat) (tr : list ev) : Z := fold_right (fun e a
 
 Lemma res_sum_app id a b : res_sum id (a ++ b) = res_sum id a + res_sum id b.
 Proof. unfold res_sum. induction a as [|x a IH]; cbn; [reflexivity|]. cbn in IH. rewrite IH. lia. Qed.
+Lemma back_sum_app id a b : back_sum id (a ++ b) = back_sum id a + back_sum id b.
+Proof. unfold back_sum. induction a as [|x a IH]; cbn; [reflexivity|]. cbn in IH. rewrite IH. lia. Qed.
 Lemma pulled_app c T a b : pulled c T (a ++ b) = pulled c T a + pulled c T b.
 Proof. unfold pulled. induction a as [|x a IH]; cbn; [reflexivity|]. cbn in IH. rewrite IH. lia. Qed.
 Lemma all_pulled_app c a b : all_pulled c (a ++ b) = all_pulled c a + all_pulled c b.
@@ -118,18 +139,26 @@ Proof.
   unfold pulled, all_pulled. induction tr as [|e tr IH]; cbn; [lia|]. pose proof (pull_len_le c T e). lia.
 Qed.
 
+Lemma limid_eqb_refl id : limid_eqb id id = true.
+Proof. destruct id; cbn; [reflexivity|apply Nat.eqb_refl]. Qed.
+
 (* ------------------------------------------------------------------ lim_phase *)
 Lemma back_ev_res id' id st t : res_sum id (back_ev id' st t) = 0.
 Proof. unfold back_ev. destruct (t <? last st); reflexivity. Qed.
 Lemma back_ev_pull id' c T st t : pulled c T (back_ev id' st t) = 0 /\ all_pulled c (back_ev id' st t) = 0.
 Proof. unfold back_ev. destruct (t <? last st); split; reflexivity. Qed.
+Lemma back_ev_sum id st t : back_sum id (back_ev id st t) = back_jump st t.
+Proof. unfold back_ev, back_jump. destruct (t <? last st); cbn; rewrite ?limid_eqb_refl; lia. Qed.
+Lemma back_ev_sum_other id' id st t : limid_eqb id' id = false -> back_sum id (back_ev id' st t) = 0.
+Proof. intro H. unfold back_ev. destruct (t <? last st); cbn; rewrite ?H; reflexivity. Qed.
 
 Lemma lim_phase_other Lo id' id st t batch st' r e :
-  lim_phase Lo id' st t batch = (st', r, e) -> limid_eqb id' id = false -> res_sum id e = 0.
+  lim_phase Lo id' st t batch = (st', r, e) -> limid_eqb id' id = false -> res_sum id e = 0 /\ back_sum id e = 0.
 Proof.
-  unfold lim_phase. destruct Lo as [L|]; [|intro H; inversion H; reflexivity].
+  unfold lim_phase. destruct Lo as [L|]; [|intro H; inversion H; split; reflexivity].
   destruct (wait_n L st t batch) as [s r0]. intros H Hne; inversion H; subst.
-  rewrite res_sum_app, back_ev_res. destruct r; cbn; rewrite ?Hne; reflexivity.
+  rewrite res_sum_app, back_sum_app, back_ev_res, (back_ev_sum_other _ _ _ _ Hne).
+  destruct r; cbn; rewrite ?Hne; split; reflexivity.
 Qed.
 
 Lemma lim_phase_nopull Lo id' st t batch st' r e c T :
@@ -148,30 +177,40 @@ Proof.
   destruct (wait_n L st t batch) as [s r0] eqn:E. intros H; inversion H; subst. eapply wait_n_nonneg; eauto.
 Qed.
 
-Lemma limid_eqb_refl id : limid_eqb id id = true.
-Proof. destruct id; cbn; [reflexivity|apply Nat.eqb_refl]. Qed.
+Lemma lim_phase_back_nonneg Lo id' id st t batch st' r e :
+  lim_phase Lo id' st t batch = (st', r, e) -> 0 <= back_sum id e.
+Proof.
+  unfold lim_phase. destruct Lo as [L|]; [|intro H; inversion H; cbn; lia].
+  destruct (wait_n L st t batch) as [s r0]. intros H; inversion H; subst.
+  rewrite back_sum_app. assert (0 <= back_sum id (back_ev id' st t)).
+  { unfold back_ev. destruct (Z.ltb_spec t (last st)); cbn; [|lia]. destruct (limid_eqb id' id); lia. }
+  destruct r; cbn; lia.
+Qed.
 
-Lemma lim_phase_own L id t0 st R t batch st' r e :
+Lemma lim_phase_own L id t0 J st R t batch st' r e :
   lim_phase (Some L) id st t batch = (st', r, e) ->
-  limiter_ok L -> linf L = false -> linv L t0 st R -> t0 <= t -> 0 <= batch ->
-  (forall i, ~ In (EBack i) e) ->
-  linv L t0 st' (R + res_sum id e) /\ 0 <= res_sum id e /\
+  limiter_ok L -> linf L = false -> linv L t0 J st R -> 0 <= J -> t0 <= t -> 0 <= batch ->
+  linv L t0 (J + back_sum id e) st' (R + res_sum id e) /\ 0 <= res_sum id e /\ 0 <= back_sum id e /\
   match r with
-  | WSleep d => (R + res_sum id e) * unit L <= lburst L * unit L + lp L * (t + d - t0 + 1)
+  | WSleep d => (R + res_sum id e) * unit L <= lburst L * unit L + lp L * (t + d - t0 + 1) + lp L * (J + back_sum id e)
   | _ => True
   end.
 Proof.
   unfold lim_phase. destruct (wait_n L st t batch) as [s r0] eqn:E. intros H; inversion H; subst. clear H.
-  intros Hok Hinf Hinv Ht0 Hb Hnb.
-  assert (Hlast : last st <= t).
-  { unfold back_ev in Hnb. destruct (Z.ltb_spec t (last st)) as [Hc|Hc]; [|lia].
-    exfalso. apply (Hnb id). cbn. left; reflexivity. }
-  pose proof (wait_n_step L t0 st R t batch st' r Hok Hinf Hinv Hlast Ht0 Hb E) as Hs.
-  rewrite res_sum_app, back_ev_res.
-  destruct r; cbn [res_sum fold_right res_n]; rewrite ?limid_eqb_refl.
-  - subst st'. replace (R + (0 + 0)) with R by lia. split; [exact Hinv|split; [lia|exact I]].
-  - replace (R + (0 + (batch + 0))) with (R + batch) by lia. split; [exact Hs|split; [lia|exact I]].
-  - replace (R + (0 + (batch + 0))) with (R + batch) by lia. destruct Hs as [H1 H2]. split; [exact H1|split; [lia|exact H2]].
+  intros Hok Hinf Hinv HJ Ht0 Hb.
+  pose proof (wait_n_step L t0 J st R t batch st' r Hok Hinf Hinv HJ Ht0 Hb E) as Hs.
+  pose proof (back_jump_nonneg st t) as Hbj.
+  rewrite res_sum_app, back_sum_app, back_ev_res, back_ev_sum.
+  destruct r; cbn [res_sum back_sum fold_right res_n back_n]; rewrite ?limid_eqb_refl.
+  - subst st'. replace (R + (0 + 0)) with R by lia.
+    split; [|split; [lia|split; [lia|exact I]]].
+    destruct Hinv as [Hc Hl]. split; [exact Hc|]. destruct Hl as [HR|[Hl1 Hl2]]; [left; exact HR|right].
+    split; [exact Hl1|]. destruct Hok as (Hp & _).
+    assert (lp L * J <= lp L * (J + (back_jump st t + 0))) by (apply Z.mul_le_mono_nonneg_l; lia). lia.
+  - replace (R + (0 + (batch + 0))) with (R + batch) by lia. replace (J + (back_jump st t + 0)) with (J + back_jump st t) by lia.
+    split; [exact Hs|split; [lia|split; [lia|exact I]]].
+  - replace (R + (0 + (batch + 0))) with (R + batch) by lia. replace (J + (back_jump st t + 0)) with (J + back_jump st t) by lia.
+    destruct Hs as [H1 H2]. split; [exact H1|split; [lia|split; [lia|exact H2]]].
 Qed.
 
 (* ------------------------------------------------------------------ world invariant *)
@@ -179,9 +218,9 @@ Definition concerns (id : limid) (c : nat) : bool :=
   match id with Total => true | Local c0 => Nat.eqb c c0 end.
 
 Definition WI (id : limid) (L : limiter) (t0 : Z) (w : world) (tr : list ev) : Prop :=
-  linv L t0 (lim_state w id) (res_sum id tr) /\ 0 <= res_sum id tr /\
+  linv L t0 (back_sum id tr) (lim_state w id) (res_sum id tr) /\ 0 <= res_sum id tr /\ 0 <= back_sum id tr /\
   all_pulled (sel id) tr <= res_sum id tr /\
-  forall T, t0 <= T -> pulled (sel id) T tr * unit L <= lburst L * unit L + lp L * (T - t0 + 1).
+  forall T, t0 <= T -> pulled (sel id) T tr * unit L <= lburst L * unit L + lp L * (T - t0 + 1) + lp L * back_sum id tr.
 
 Lemma clip_range k hi : 0 <= hi -> 0 <= clip k 0 hi <= hi.
 Proof. intro H. unfold clip. destruct (Z.ltb_spec k 0); [lia|]. destruct (Z.ltb_spec hi k); lia. Qed.
@@ -198,122 +237,126 @@ Proof. unfold upd. rewrite Nat.eqb_refl. reflexivity. Qed.
 Lemma upd_other {A} (f : nat -> A) c v x : Nat.eqb x c = false -> upd f c v x = f x.
 Proof. unfold upd. intros ->. reflexivity. Qed.
 
-Lemma in_app_not {A} (P : A -> Prop) (a b : list A) :
-  (forall x, In x (a ++ b) -> P x) -> (forall x, In x a -> P x) /\ (forall x, In x b -> P x).
-Proof. intro H. split; intros x Hx; apply H; apply in_or_app; auto. Qed.
-
 Lemma mul_bound U X Y : 0 < U -> X <= Y -> X * U <= Y * U.
 Proof. intros. nia. Qed.
 
+Lemma linv_weaken L t0 J J' st R : 0 <= lp L -> J <= J' -> linv L t0 J st R -> linv L t0 J' st R.
+Proof.
+  intros Hp HJ [Hc Hl]. split; [exact Hc|]. destruct Hl as [HR|[H1 H2]]; [left; exact HR|right]. split; [exact H1|].
+  assert (lp L * J <= lp L * J') by (apply Z.mul_le_mono_nonneg_l; lia). lia.
+Qed.
+
+(* what one Read adds to the trace, seen from limiter id *)
 Lemma read_step_inv h id L t0 t1 w o w' e tr :
   lim_of h id = Some L -> limiter_ok L -> linf L = false ->
   WI id L t0 w tr ->
   (concerns id (oc o) = true -> t0 <= t1) ->
   op_ok o -> 0 <= batch_size h (olen o) ->
-  (forall i, ~ In (EBack i) e) ->
   read_step h t1 w o = (w', e) ->
   WI id L t0 w' (tr ++ e).
 Proof.
-  intros Hlim Hok Hinf (Hinv & HR0 & Hall & Hbound) Ht0 (Holen & Hodel & Hj2 & Hj3) Hbatch Hnb.
+  intros Hlim Hok Hinf (Hinv & HR0 & HJ0 & Hall & Hbound) Ht0 (Holen & Hodel & Hj2 & Hj3) Hbatch.
   pose proof (unit_pos L Hok) as HU. pose proof Hok as (Hp & Hq & Hb).
   unfold read_step. set (batch := batch_size h (olen o)) in *. set (c := oc o) in *.
   destruct (lim_phase (htotal h) Total (wtotal w) t1 batch) as [[stT r1] e1] eqn:E1.
   pose proof (lim_phase_nopull _ _ _ _ _ _ _ _ (sel id) 0 E1) as [_ Hall1].
   assert (Hp1 : forall T, pulled (sel id) T e1 = 0) by (intro T; eapply lim_phase_nopull; eauto).
-  (* facts about phase 1 with respect to id *)
-  assert (Ph1 : forall e', (forall i, ~ In (EBack i) (e1 ++ e')) ->
-            linv L t0 (match id with Total => stT | Local c0 => wlocal w c0 end) (res_sum id tr + res_sum id e1)
-            /\ 0 <= res_sum id e1
-            /\ (forall d1, r1 = WSleep d1 -> id = Total ->
-                  (res_sum id tr + res_sum id e1) * unit L <= lburst L * unit L + lp L * (t1 + d1 - t0 + 1))).
-  { intros e' Hnb'. destruct id as [|c0].
+  pose proof (lim_phase_back_nonneg _ _ id _ _ _ _ _ _ E1) as HB1.
+  set (R0 := res_sum id tr) in *. set (J0 := back_sum id tr) in *.
+  (* phase 1 seen from id *)
+  assert (Ph1 : linv L t0 (J0 + back_sum id e1) (match id with Total => stT | Local c0 => wlocal w c0 end) (R0 + res_sum id e1)
+                /\ 0 <= res_sum id e1
+                /\ (forall d1, r1 = WSleep d1 -> id = Total ->
+                      (R0 + res_sum id e1) * unit L <= lburst L * unit L + lp L * (t1 + d1 - t0 + 1) + lp L * (J0 + back_sum id e1))).
+  { destruct id as [|c0].
     - cbn in Hlim. rewrite Hlim in E1.
-      assert (Hnb1 : forall i, ~ In (EBack i) e1) by (intros i Hi; apply (Hnb' i); apply in_or_app; auto).
-      pose proof (lim_phase_own L Total t0 _ _ _ _ _ _ _ E1 Hok Hinf Hinv (Ht0 eq_refl) Hbatch Hnb1) as (A & B & C).
-      repeat split; [apply A|apply A|exact B|]. intros d1 -> _. exact C.
-    - rewrite (lim_phase_other _ _ (Local c0) _ _ _ _ _ _ E1 eq_refl).
-      replace (res_sum (Local c0) tr + 0) with (res_sum (Local c0) tr) by lia.
-      repeat split; [apply Hinv|apply Hinv|lia|]. intros; discriminate. }
+      pose proof (lim_phase_own L Total t0 J0 _ _ _ _ _ _ _ E1 Hok Hinf Hinv HJ0 (Ht0 eq_refl) Hbatch) as (A & B & _ & C).
+      split; [exact A|split; [exact B|]]. intros d1 -> _. exact C.
+    - destruct (lim_phase_other _ _ (Local c0) _ _ _ _ _ _ E1 eq_refl) as [-> ->].
+      replace (R0 + 0) with R0 by lia. replace (J0 + 0) with J0 by lia.
+      split; [exact Hinv|split; [lia|]]. intros; discriminate. }
+  destruct Ph1 as (A1 & B1 & C1).
+  (* every case ends with the same bookkeeping *)
+  assert (Keep : forall T, t0 <= T -> forall dJ, 0 <= dJ ->
+            pulled (sel id) T tr * unit L <= lburst L * unit L + lp L * (T - t0 + 1) + lp L * (J0 + dJ)).
+  { intros T HT dJ HdJ. specialize (Hbound T HT).
+    assert (lp L * J0 <= lp L * (J0 + dJ)) by (apply Z.mul_le_mono_nonneg_l; lia). lia. }
   destruct r1 as [| |d1].
-  - (* total limiter error *)
-    intro H; inversion H; subst w' e. clear H.
-    destruct (Ph1 [EErr c] Hnb) as (A & B & _).
-    unfold WI. rewrite !res_sum_app, !all_pulled_app. cbn [res_sum all_pulled fold_right res_n all_len].
-    rewrite Hall1. split; [|split; [|split]].
-    + replace (res_sum id tr + (res_sum id e1 + (0 + 0))) with (res_sum id tr + res_sum id e1) by lia. destruct id; exact A.
-    + lia.
-    + lia.
-    + intros T HT. rewrite !pulled_app, Hp1. cbn. specialize (Hbound T HT). lia.
   - intro H; inversion H; subst w' e. clear H.
-    destruct (Ph1 [EBlock c] Hnb) as (A & B & _).
-    unfold WI. rewrite !res_sum_app, !all_pulled_app. cbn [res_sum all_pulled fold_right res_n all_len].
-    rewrite Hall1. split; [|split; [|split]].
-    + replace (res_sum id tr + (res_sum id e1 + (0 + 0))) with (res_sum id tr + res_sum id e1) by lia. destruct id; exact A.
-    + lia.
-    + lia.
-    + intros T HT. rewrite !pulled_app, Hp1. cbn. specialize (Hbound T HT). lia.
+    unfold WI. rewrite !res_sum_app, !back_sum_app, !all_pulled_app.
+    cbn [res_sum back_sum all_pulled fold_right res_n back_n all_len]. rewrite Hall1.
+    replace (R0 + (res_sum id e1 + (0 + 0))) with (R0 + res_sum id e1) by lia.
+    replace (J0 + (back_sum id e1 + (0 + 0))) with (J0 + back_sum id e1) by lia.
+    split; [destruct id; exact A1|split; [lia|split; [lia|split; [lia|]]]].
+    intros T HT. rewrite !pulled_app, Hp1. cbn. specialize (Keep T HT _ HB1). lia.
+  - intro H; inversion H; subst w' e. clear H.
+    unfold WI. rewrite !res_sum_app, !back_sum_app, !all_pulled_app.
+    cbn [res_sum back_sum all_pulled fold_right res_n back_n all_len]. rewrite Hall1.
+    replace (R0 + (res_sum id e1 + (0 + 0))) with (R0 + res_sum id e1) by lia.
+    replace (J0 + (back_sum id e1 + (0 + 0))) with (J0 + back_sum id e1) by lia.
+    split; [destruct id; exact A1|split; [lia|split; [lia|split; [lia|]]]].
+    intros T HT. rewrite !pulled_app, Hp1. cbn. specialize (Keep T HT _ HB1). lia.
   - pose proof (lim_phase_nonneg _ _ _ _ _ _ _ _ E1) as Hd1.
     set (t2 := t1 + d1 + oj2 o).
     destruct (lim_phase (hlocal h) (Local c) (wlocal w c) t2 batch) as [[stL r2] e2] eqn:E2.
     pose proof (lim_phase_nopull _ _ _ _ _ _ _ _ (sel id) 0 E2) as [_ Hall2].
     assert (Hp2 : forall T, pulled (sel id) T e2 = 0) by (intro T; eapply lim_phase_nopull; eauto).
-    assert (Ph2 : forall e', (forall i, ~ In (EBack i) (e1 ++ e2 ++ e')) ->
-              linv L t0 (lim_state {| wtotal := stT; wlocal := upd (wlocal w) c stL; winner := winner w |} id)
-                   (res_sum id tr + res_sum id e1 + res_sum id e2)
-              /\ 0 <= res_sum id e1 /\ 0 <= res_sum id e2
-              /\ (forall d2, r2 = WSleep d2 -> concerns id c = true ->
-                    (res_sum id tr + res_sum id e1 + res_sum id e2) * unit L
-                    <= lburst L * unit L + lp L * (t2 + d2 - t0 + 1))).
-    { intros e' Hnb'.
-      assert (Hnb1 : forall i, ~ In (EBack i) (e1 ++ e2 ++ e')) by exact Hnb'.
-      destruct (Ph1 (e2 ++ e') Hnb1) as (A & B & C).
-      destruct id as [|c0].
-      - rewrite (lim_phase_other _ _ Total _ _ _ _ _ _ E2 eq_refl). cbn [lim_state wtotal].
-        replace (res_sum Total tr + res_sum Total e1 + 0) with (res_sum Total tr + res_sum Total e1) by lia.
-        repeat split; [apply A|apply A|exact B|lia|]. intros d2 -> _.
+    pose proof (lim_phase_back_nonneg _ _ id _ _ _ _ _ _ E2) as HB2.
+    set (R2 := R0 + res_sum id e1 + res_sum id e2). set (J2 := J0 + back_sum id e1 + back_sum id e2).
+    assert (Ph2 : linv L t0 J2 (lim_state {| wtotal := stT; wlocal := upd (wlocal w) c stL; winner := winner w |} id) R2
+                  /\ 0 <= res_sum id e2
+                  /\ (forall d2, r2 = WSleep d2 -> concerns id c = true ->
+                        R2 * unit L <= lburst L * unit L + lp L * (t2 + d2 - t0 + 1) + lp L * J2)).
+    { unfold R2, J2. destruct id as [|c0].
+      - destruct (lim_phase_other _ _ Total _ _ _ _ _ _ E2 eq_refl) as [-> ->]. cbn [lim_state wtotal].
+        replace (R0 + res_sum Total e1 + 0) with (R0 + res_sum Total e1) by lia.
+        replace (J0 + back_sum Total e1 + 0) with (J0 + back_sum Total e1) by lia.
+        split; [exact A1|split; [lia|]]. intros d2 -> _.
         pose proof (lim_phase_nonneg _ _ _ _ _ _ _ _ E2) as Hd2.
-        specialize (C d1 eq_refl eq_refl). unfold t2. nia.
+        specialize (C1 d1 eq_refl eq_refl).
+        assert (lp L * (t1 + d1 - t0 + 1) <= lp L * (t2 + d2 - t0 + 1)) by (apply Z.mul_le_mono_nonneg_l; unfold t2; lia). lia.
       - cbn [lim_state wlocal]. destruct (Nat.eqb c0 c) eqn:Ec.
         + apply Nat.eqb_eq in Ec. subst c0. rewrite upd_same.
           cbn in Hlim. rewrite Hlim in E2.
-          assert (Hnb2 : forall i, ~ In (EBack i) e2).
-          { intros i Hi. apply (Hnb' i). apply in_or_app; right. apply in_or_app; auto. }
           assert (Ht2 : t0 <= t2) by (unfold t2; cbn in Ht0; rewrite Nat.eqb_refl in Ht0; specialize (Ht0 eq_refl); lia).
-          pose proof (lim_phase_own L (Local c) t0 _ _ _ _ _ _ _ E2 Hok Hinf A Ht2 Hbatch Hnb2) as (A2 & B2 & C2).
-          repeat split; [apply A2|apply A2|exact B|exact B2|]. intros d2 -> _. exact C2.
+          assert (HJ1 : 0 <= J0 + back_sum (Local c) e1) by lia.
+          pose proof (lim_phase_own L (Local c) t0 _ _ _ _ _ _ _ _ E2 Hok Hinf A1 HJ1 Ht2 Hbatch) as (A2 & B2 & _ & C2).
+          split; [exact A2|split; [exact B2|]]. intros d2 -> _. exact C2.
         + rewrite upd_other by exact Ec.
           assert (Hne : limid_eqb (Local c) (Local c0) = false) by (cbn; rewrite Nat.eqb_sym; exact Ec).
-          rewrite (lim_phase_other _ _ (Local c0) _ _ _ _ _ _ E2 Hne).
-          replace (res_sum (Local c0) tr + res_sum (Local c0) e1 + 0) with (res_sum (Local c0) tr + res_sum (Local c0) e1) by lia.
-          repeat split; [apply A|apply A|exact B|lia|]. intros d2 _ Hc. cbn in Hc. rewrite Nat.eqb_sym in Hc. congruence. }
+          destruct (lim_phase_other _ _ (Local c0) _ _ _ _ _ _ E2 Hne) as [-> ->].
+          replace (R0 + res_sum (Local c0) e1 + 0) with (R0 + res_sum (Local c0) e1) by lia.
+          replace (J0 + back_sum (Local c0) e1 + 0) with (J0 + back_sum (Local c0) e1) by lia.
+          split; [exact A1|split; [lia|]]. intros d2 _ Hc. cbn in Hc. rewrite Nat.eqb_sym in Hc. congruence. }
+    destruct Ph2 as (A2 & B2 & C2).
+    assert (HJ2 : 0 <= back_sum id e1 + back_sum id e2) by lia.
     destruct r2 as [| |d2].
     + intro H; inversion H; subst w' e. clear H.
-      destruct (Ph2 [EErr c] Hnb) as (A & B1 & B2 & _).
-      unfold WI. rewrite !res_sum_app, !all_pulled_app. cbn [res_sum all_pulled fold_right res_n all_len].
-      rewrite Hall1, Hall2. split; [|split; [|split]].
-      * replace (res_sum id tr + (res_sum id e1 + (res_sum id e2 + (0 + 0)))) with (res_sum id tr + res_sum id e1 + res_sum id e2) by lia. exact A.
-      * lia.
-      * lia.
-      * intros T HT. rewrite !pulled_app, Hp1, Hp2. cbn. specialize (Hbound T HT). lia.
+      unfold WI. rewrite !res_sum_app, !back_sum_app, !all_pulled_app.
+      cbn [res_sum back_sum all_pulled fold_right res_n back_n all_len]. rewrite Hall1, Hall2.
+      replace (R0 + (res_sum id e1 + (res_sum id e2 + (0 + 0)))) with R2 by (unfold R2; lia).
+      replace (J0 + (back_sum id e1 + (back_sum id e2 + (0 + 0)))) with J2 by (unfold J2; lia).
+      split; [exact A2|split; [unfold R2; lia|split; [unfold J2; lia|split; [unfold R2; lia|]]]].
+      intros T HT. rewrite !pulled_app, Hp1, Hp2. cbn. specialize (Keep T HT _ HJ2). unfold J2. 
+      replace (J0 + back_sum id e1 + back_sum id e2) with (J0 + (back_sum id e1 + back_sum id e2)) by lia. lia.
     + intro H; inversion H; subst w' e. clear H.
-      destruct (Ph2 [EBlock c] Hnb) as (A & B1 & B2 & _).
-      unfold WI. rewrite !res_sum_app, !all_pulled_app. cbn [res_sum all_pulled fold_right res_n all_len].
-      rewrite Hall1, Hall2. split; [|split; [|split]].
-      * replace (res_sum id tr + (res_sum id e1 + (res_sum id e2 + (0 + 0)))) with (res_sum id tr + res_sum id e1 + res_sum id e2) by lia. exact A.
-      * lia.
-      * lia.
-      * intros T HT. rewrite !pulled_app, Hp1, Hp2. cbn. specialize (Hbound T HT). lia.
+      unfold WI. rewrite !res_sum_app, !back_sum_app, !all_pulled_app.
+      cbn [res_sum back_sum all_pulled fold_right res_n back_n all_len]. rewrite Hall1, Hall2.
+      replace (R0 + (res_sum id e1 + (res_sum id e2 + (0 + 0)))) with R2 by (unfold R2; lia).
+      replace (J0 + (back_sum id e1 + (back_sum id e2 + (0 + 0)))) with J2 by (unfold J2; lia).
+      split; [exact A2|split; [unfold R2; lia|split; [unfold J2; lia|split; [unfold R2; lia|]]]].
+      intros T HT. rewrite !pulled_app, Hp1, Hp2. cbn. specialize (Keep T HT _ HJ2). unfold J2.
+      replace (J0 + back_sum id e1 + back_sum id e2) with (J0 + (back_sum id e1 + back_sum id e2)) by lia. lia.
     + pose proof (lim_phase_nonneg _ _ _ _ _ _ _ _ E2) as Hd2.
       set (t3 := t2 + d2 + oj3 o).
       set (rest := winner w c).
       set (k := clip (oavail o) 0 (zmin batch (Z.of_nat (length rest)))).
       set (bytes := firstn (Z.to_nat k) rest).
       intro H; inversion H; subst w' e. clear H.
-      destruct (Ph2 [EPull c t3 batch bytes] Hnb) as (A & B1 & B2 & C).
       assert (Hk : 0 <= k <= batch).
-      { unfold k. pose proof (zmin_le batch (Z.of_nat (length rest))).
-        assert (0 <= zmin batch (Z.of_nat (length rest))) by (apply zmin_glb; lia).
-        pose proof (clip_range (oavail o) _ H0). lia. }
+      { unfold k. pose proof (zmin_le batch (Z.of_nat (length rest))) as Hzl.
+        assert (Hz0 : 0 <= zmin batch (Z.of_nat (length rest))) by (apply zmin_glb; lia).
+        pose proof (clip_range (oavail o) _ Hz0). lia. }
       assert (Hlen : Z.of_nat (length bytes) <= batch) by (pose proof (firstn_len_le k rest (proj1 Hk)); unfold bytes; lia).
       (* when the pull counts for id, id reserved batch in this call *)
       assert (Hres : concerns id c = true -> batch <= res_sum id e1 + res_sum id e2).
@@ -326,20 +369,21 @@ Proof.
           rewrite res_sum_app, back_ev_res. cbn. rewrite Nat.eqb_refl. lia. }
       assert (Hsel : all_len (sel id) (EPull c t3 batch bytes) = if concerns id c then Z.of_nat (length bytes) else 0).
       { destruct id; cbn; reflexivity. }
-      unfold WI. rewrite !res_sum_app, !all_pulled_app. cbn [res_sum all_pulled fold_right res_n].
-      rewrite Hall1, Hall2, Hsel. split; [|split; [|split]].
-      * replace (res_sum id tr + (res_sum id e1 + (res_sum id e2 + (0 + 0)))) with (res_sum id tr + res_sum id e1 + res_sum id e2) by lia. exact A.
-      * lia.
-      * destruct (concerns id c) eqn:Ec; [specialize (Hres eq_refl)|]; lia.
+      unfold WI. rewrite !res_sum_app, !back_sum_app, !all_pulled_app.
+      cbn [res_sum back_sum all_pulled fold_right res_n back_n]. rewrite Hall1, Hall2, Hsel.
+      replace (R0 + (res_sum id e1 + (res_sum id e2 + (0 + 0)))) with R2 by (unfold R2; lia).
+      replace (J0 + (back_sum id e1 + (back_sum id e2 + (0 + 0)))) with J2 by (unfold J2; lia).
+      split; [exact A2|split; [unfold R2; lia|split; [unfold J2; lia|split|]]].
+      * unfold R2. destruct (concerns id c) eqn:Ec; [specialize (Hres eq_refl)|]; lia.
       * intros T HT. rewrite !pulled_app, Hp1, Hp2. cbn [pulled fold_right].
         pose proof (pull_len_le (sel id) T (EPull c t3 batch bytes)) as Hpl. rewrite Hsel in Hpl.
-        specialize (Hbound T HT).
+        specialize (Keep T HT _ HJ2).
+        replace (J0 + (back_sum id e1 + back_sum id e2)) with J2 in Keep by (unfold J2; lia).
         destruct (Z.leb_spec t3 T) as [HtT|HtT].
         -- destruct (concerns id c) eqn:Ec; [|lia].
-           specialize (Hres eq_refl). specialize (C d2 eq_refl eq_refl).
+           specialize (Hres eq_refl). specialize (C2 d2 eq_refl eq_refl).
            pose proof (pulled_le_all (sel id) T tr) as Hpa.
-           assert (Hsum : pulled (sel id) T tr + (pull_len (sel id) T (EPull c t3 batch bytes) + 0)
-                          <= res_sum id tr + res_sum id e1 + res_sum id e2) by lia.
+           assert (Hsum : pulled (sel id) T tr + (pull_len (sel id) T (EPull c t3 batch bytes) + 0) <= R2) by (unfold R2, R0; lia).
            apply (mul_bound (unit L)) in Hsum; [|exact HU].
            assert (lp L * (t2 + d2 - t0 + 1) <= lp L * (T - t0 + 1)) by (apply Z.mul_le_mono_nonneg_l; unfold t3 in HtT; lia).
            lia.
@@ -374,20 +418,6 @@ Proof.
     try pose proof (zmin_le (zmin len (lburst LT)) (lburst L)); lia.
 Qed.
 
-Lemma sched_step_trace h ss acc o : exists e, snd (sched_step h ss acc o) = snd acc ++ e.
-Proof.
-  unfold sched_step. destruct (nth_error ss (oc o)) as [s|]; [|exists []; rewrite app_nil_r; reflexivity].
-  destruct (ready h s) as [rdy|]; [|exists []; rewrite app_nil_r; reflexivity].
-  destruct (read_step h (rdy + odelay o) (fst acc) o) as [w' e]. exists e. reflexivity.
-Qed.
-
-Lemma fold_trace h ss ops : forall acc, exists e, snd (fold_left (sched_step h ss) ops acc) = snd acc ++ e.
-Proof.
-  induction ops as [|o ops IH]; intro acc; cbn [fold_left]; [exists []; rewrite app_nil_r; reflexivity|].
-  destruct (IH (sched_step h ss acc o)) as [e2 H2]. destruct (sched_step_trace h ss acc o) as [e1 H1].
-  exists (e1 ++ e2). rewrite H2, H1, app_assoc. reflexivity.
-Qed.
-
 Definition reads_from (h : handler) (ss : list session) (id : limid) (t0 : Z) (ops : list op) : Prop :=
   forall o s rdy, In o ops -> nth_error ss (oc o) = Some s -> ready h s = Some rdy ->
                   concerns id (oc o) = true -> t0 <= rdy + odelay o.
@@ -395,45 +425,62 @@ Definition reads_from (h : handler) (ss : list session) (id : limid) (t0 : Z) (o
 Lemma run_inv h ss id L t0 :
   lim_of h id = Some L -> limiter_ok L -> linf L = false -> handler_ok h ->
   forall ops w tr, WI id L t0 w tr -> Forall op_ok ops -> reads_from h ss id t0 ops ->
-    clock_ordered (snd (fold_left (sched_step h ss) ops (w, tr))) ->
     WI id L t0 (fst (fold_left (sched_step h ss) ops (w, tr))) (snd (fold_left (sched_step h ss) ops (w, tr))).
 Proof.
-  intros Hlim Hok Hinf Hh. induction ops as [|o ops IH]; intros w tr HWI Hops Hfrom Hclk; cbn [fold_left] in *; [exact HWI|].
+  intros Hlim Hok Hinf Hh. induction ops as [|o ops IH]; intros w tr HWI Hops Hfrom; cbn [fold_left] in *; [exact HWI|].
   inversion Hops as [|? ? Ho Hops']; subst.
   assert (Hfrom' : reads_from h ss id t0 ops).
   { intros o' s rdy Hin. apply Hfrom. right; exact Hin. }
-  unfold sched_step at 2 4. unfold sched_step at 2 in Hclk.
+  unfold sched_step at 2 4.
   destruct (nth_error ss (oc o)) as [s|] eqn:Es; [|apply IH; auto].
   destruct (ready h s) as [rdy|] eqn:Er; [|apply IH; auto].
   cbn [fst snd] in *.
   destruct (read_step h (rdy + odelay o) w o) as [w' e] eqn:Ers.
   apply IH; auto.
-  destruct (fold_trace h ss ops (w', tr ++ e)) as [e' He']. cbn [snd] in He'.
   eapply read_step_inv; eauto.
   - intro Hc. eapply Hfrom; eauto. left; reflexivity.
   - apply batch_nonneg; [exact Hh|apply Ho].
-  - intros i Hi. apply (Hclk i). rewrite He'. apply in_or_app; left. apply in_or_app; right; exact Hi.
 Qed.
 
 Lemma WI_init h ss id L t0 : lim_of h id = Some L -> limiter_ok L -> WI id L t0 (init_world h ss) [].
 Proof.
   intros Hlim Hok. pose proof (unit_pos L Hok). destruct Hok as (Hp & Hq & Hb).
-  split; [|split; [cbn; lia|split; [cbn; lia|]]].
+  split; [|split; [cbn; lia|split; [cbn; lia|split; [cbn; lia|]]]].
   - destruct id; cbn in *; rewrite Hlim; apply linv_init.
   - intros T HT. cbn. assert (0 <= lp L * (T - t0 + 1)) by (apply Z.mul_nonneg_nonneg; lia).
     assert (0 <= lburst L * unit L) by (apply Z.mul_nonneg_nonneg; lia). lia.
 Qed.
 
-(* the bound, for the total limiter (id = Total) and for a connection's limiter (id = Local c) *)
+(* the bound for every schedule, for the total limiter (id = Total) and for a connection's
+   limiter (id = Local c): the only excess over burst + rate * (T - t0 + 1ns) is the rate times
+   the backward jumps of the instants at which reservations reached the limiter *)
+Lemma throttle_bound_any h ss ops id L t0 T :
+  lim_of h id = Some L -> linf L = false -> handler_ok h -> Forall op_ok ops ->
+  reads_from h ss id t0 ops -> t0 <= T ->
+  pulled (sel id) T (snd (run h ss ops)) * unit L
+  <= lburst L * unit L + lp L * (T - t0 + 1) + lp L * back_sum id (snd (run h ss ops)).
+Proof.
+  intros Hlim Hinf Hh Hops Hfrom HT.
+  assert (Hok : limiter_ok L) by (destruct Hh as [HT' HL]; destruct id; cbn in Hlim; auto).
+  pose proof (run_inv h ss id L t0 Hlim Hok Hinf Hh ops _ _ (WI_init h ss id L t0 Hlim Hok) Hops Hfrom) as (_ & _ & _ & _ & Hb).
+  apply Hb. exact HT.
+Qed.
+
+Lemma clock_ordered_back_sum id tr : clock_ordered tr -> back_sum id tr = 0.
+Proof.
+  intro Hc. unfold back_sum. induction tr as [|e tr IH]; [reflexivity|]. cbn [fold_right].
+  rewrite IH; [|intros i j Hin; apply (Hc i j); right; exact Hin].
+  destruct e; cbn; try reflexivity. exfalso. apply (Hc id0 j). left; reflexivity.
+Qed.
+
 Lemma throttle_bound_gen h ss ops id L t0 T :
   lim_of h id = Some L -> linf L = false -> handler_ok h -> Forall op_ok ops ->
   reads_from h ss id t0 ops -> clock_ordered (snd (run h ss ops)) -> t0 <= T ->
   pulled (sel id) T (snd (run h ss ops)) * unit L <= lburst L * unit L + lp L * (T - t0 + 1).
 Proof.
   intros Hlim Hinf Hh Hops Hfrom Hclk HT.
-  assert (Hok : limiter_ok L) by (destruct Hh as [HT' HL]; destruct id; cbn in Hlim; auto).
-  pose proof (run_inv h ss id L t0 Hlim Hok Hinf Hh ops _ _ (WI_init h ss id L t0 Hlim Hok) Hops Hfrom Hclk) as (_ & _ & _ & Hb).
-  apply Hb. exact HT.
+  pose proof (throttle_bound_any h ss ops id L t0 T Hlim Hinf Hh Hops Hfrom HT) as H.
+  rewrite (clock_ordered_back_sum id _ Hclk) in H. lia.
 Qed.
 
 (* ------------------------------------------------------------------ Provision *)
@@ -474,7 +521,7 @@ Qed.
 
 (* ------------------------------------------------------------------ every pull: who, when, how much *)
 Lemma lim_phase_events Lo id st t batch st' r e x :
-  lim_phase Lo id st t batch = (st', r, e) -> In x e -> (exists i, x = EBack i) \/ (exists i t n, x = ERes i t n).
+  lim_phase Lo id st t batch = (st', r, e) -> In x e -> (exists i j, x = EBack i j) \/ (exists i t n, x = ERes i t n).
 Proof.
   unfold lim_phase. destruct Lo as [L|]; [|intro H; inversion H; intros []].
   destruct (wait_n L st t batch) as [s r0]. intro H; inversion H; subst. intro Hin.
@@ -491,14 +538,14 @@ Proof.
   unfold read_step. set (batch := batch_size h (olen o)) in *.
   destruct (lim_phase (htotal h) Total (wtotal w) t1 batch) as [[stT r1] e1] eqn:E1.
   assert (N1 : ~ In (EPull c t b bs) e1).
-  { intro Hin. destruct (lim_phase_events _ _ _ _ _ _ _ _ _ E1 Hin) as [[i Hx]|[i [t' [n Hx]]]]; discriminate. }
+  { intro Hin. destruct (lim_phase_events _ _ _ _ _ _ _ _ _ E1 Hin) as [[i [j Hx]]|[i [t' [n Hx]]]]; discriminate. }
   destruct r1 as [| |d1].
   - intro H; inversion H; subst. intro Hin. apply in_app_or in Hin. destruct Hin as [Hin|[Hin|[]]]; [tauto|discriminate].
   - intro H; inversion H; subst. intro Hin. apply in_app_or in Hin. destruct Hin as [Hin|[Hin|[]]]; [tauto|discriminate].
   - pose proof (lim_phase_nonneg _ _ _ _ _ _ _ _ E1) as Hd1.
     destruct (lim_phase (hlocal h) (Local (oc o)) (wlocal w (oc o)) (t1 + d1 + oj2 o) batch) as [[stL r2] e2] eqn:E2.
     assert (N2 : ~ In (EPull c t b bs) e2).
-    { intro Hin. destruct (lim_phase_events _ _ _ _ _ _ _ _ _ E2 Hin) as [[i Hx]|[i [t' [n Hx]]]]; discriminate. }
+    { intro Hin. destruct (lim_phase_events _ _ _ _ _ _ _ _ _ E2 Hin) as [[i [j Hx]]|[i [t' [n Hx]]]]; discriminate. }
     destruct r2 as [| |d2].
     + intro H; inversion H; subst. intro Hin. apply in_app_or in Hin. destruct Hin as [Hin|Hin]; [tauto|].
       apply in_app_or in Hin. destruct Hin as [Hin|[Hin|[]]]; [tauto|discriminate].
@@ -672,8 +719,8 @@ Qed.
 
 Lemma clock_ordered_dec tr : existsb is_back tr = false -> clock_ordered tr.
 Proof.
-  intros H id Hin. assert (existsb is_back tr = true); [|congruence].
-  apply existsb_exists. exists (EBack id). split; [exact Hin|reflexivity].
+  intros H id j Hin. assert (existsb is_back tr = true); [|congruence].
+  apply existsb_exists. exists (EBack id j). split; [exact Hin|reflexivity].
 Qed.
 
 (* the truncation of durationFromTokens makes the bound hold with one nanosecond of slack only:
